@@ -66,6 +66,18 @@ def handle (ws : List String) : String :=
       | .error .typeErr => "ok error type"
       | .error .expected => "ok error expected"
       | .error (.value m) => "ok error value " ++ hex m
+  | "bcmodel" :: items =>
+      -- items: id:flaghex:parts
+      let surfs := items.filterMap fun it =>
+        match it.splitOn ":" with
+        | [i, f, p] => do
+            let id ← i.toNat?; let fl ← unhex f; let pp ← p.toNat?
+            pure ({ id := id, flag := fl, parts := pp } : BCSurf)
+        | _ => none
+      (match bcEntries surfs with
+       | .ok es => "ok " ++ " ".intercalate (es.map fun (i, k) => s!"{k}:{i}")
+       | .error .macrobody => "ok error macrobody"
+       | .error (.badFlag _) => "ok error badflag")
   | ["boolmon", hx] =>
       match unhex hx >>= Sexp.parse with
       | some s => runBoolMon s
